@@ -137,6 +137,10 @@ func LoadProgram(repo string, patterns ...string) (*Program, error) {
 						continue
 					}
 					k := pk.PkgPath + "." + c.Func
+					if strings.HasPrefix(c.Func, "ext:") {
+						// a contract assumed of a function or interface method outside the module (io.Writer.Write ...)
+						k = strings.TrimPrefix(c.Func, "ext:")
+					}
 					if isAbstract(c) {
 						if _, dup := p.AContracts[k]; dup {
 							errs = append(errs, fmt.Sprintf("%s: duplicate abstract contract for %s", c.File, k))
